@@ -974,6 +974,14 @@ def run_impl(histories, ts=True, timeout_ms=30000):
                 a[side]["lines"] = fold_iter(a[side]["lines"])
     if len(ans) != len(histories):
         raise RuntimeError(f"c18 harness returned {len(ans)} answers for {len(histories)} programs: {p.stderr.decode()[-400:]}")
+    # a wall-clock timeout of the compiled program is not a verdict about the collections: the batch
+    # runs many Node processes side by side and the machine may be loaded. Re-run such a program alone
+    # with a 6x budget; only a program that times out again (a real hang / blow-up) keeps `timeout`.
+    if timeout_ms <= 30000:
+        for i, a in enumerate(ans):
+            if any(isinstance(a.get(side), dict) and a[side].get("end") == "timeout" for side in ("wasm", "ts")):
+                _, again = run_impl([histories[i]], ts=ts, timeout_ms=timeout_ms * 6)
+                ans[i] = again[0]
     return header, ans
 
 
